@@ -68,7 +68,7 @@ pub fn run(args: &Args) {
                 dags.push(d.clone())
             }
         });
-        let ex = run_all(&mut rep, name, &dags, oracles, true, |d, f| singleton_histories(d, &cuts, act, f));
+        let ex = run_all(&mut rep, name, &dags, oracles, true, |c, m| (c.ends_with("-outcome") && m.contains("ParallelFinalize")) || c == "failed-op-changed-state", |d, f| singleton_histories(d, &cuts, act, f));
         families.push(json!({"family": name, "universes": dags.len(), "executions": ex}));
     }
     rep.require_nonzero("parallel_finalize_add");
